@@ -10,6 +10,8 @@ Exit status: 0 ok (files written only when their content changed, to keep lake i
 2 = a source shape could not be parsed (broken tie; message on stderr names what failed).
 """
 import os, re, sys
+sys.path.insert(0, os.path.dirname(os.path.abspath(__file__)))
+import rs2lean, fn_table, ser_shape
 
 REPO = os.environ.get("VERIF_REPO", "/repo")
 OUT = os.path.join(os.path.dirname(os.path.abspath(__file__)), "..", "lean", "Sds", "Generated")
@@ -243,9 +245,7 @@ def translate_bits_fns(src, env):
         out.append("def gen_%s (m : Mode) %s: Outcome (%s) := do\n%s  return %s\n" % (
             name, "".join("(%s : Nat) " % q for q in params), rty, "".join("  %s\n" % st for st in stmts), ret))
     return ("-- GENERATED by tools/gen_lean.py from /repo/src/bits.rs (arithmetic helpers) — do not edit.\n"
-            "import Sds.Model.Basic\nnamespace Sds.Generated\nopen Sds Outcome\n\n"
-            "/-- `a / b` on `usize`: division by zero panics -/\n"
-            "def gDiv (a b : Nat) : Outcome Nat := if b = 0 then fault (.panic .other) else ok (a / b)\n\n"
+            "import Sds.Model.GenSupport\nnamespace Sds.Generated\nopen Sds Outcome\n\n"
             + "\n".join(out) + "\nend Sds.Generated\n")
 
 
@@ -317,6 +317,17 @@ def generate():
     files["Consts.lean"] = "\n".join(lines)
 
     files["BitsFns.lean"] = translate_bits_fns(bits, c)
+    # function bodies translated statement by statement (tools/rs2lean.py, configuration in tools/fn_table.py)
+    try:
+        files.update(fn_table.generate_fn_files(read, {
+            "bits.rs": c, "raw_vector.rs": c, "int_vector.rs": c, "wavelet_matrix/wm_core.rs": c,
+            "bit_vector/rank_support.rs": {**c, **r}, "sparse_vector.rs": {**c, **p}, "rl_vector/index.rs": {**c, **i}}))
+    except rs2lean.Unsupported as e:
+        raise ParseError("function translator: %s" % e)
+    try:
+        files["SerShape.lean"] = ser_shape.render(ser_shape.extract(read))
+    except ser_shape.ShapeError as e:
+        raise ParseError("serialization shapes: %s" % e)
     ser = read("serialize.rs")
     # MemoryMap: how failure of mmap is detected, and the length passed to munmap
     mm = re.search(r"let ptr = unsafe \{ libc::mmap\([^;]*\) \};\s*if\s+([^{]+)\{\s*return Err", ser)
